@@ -77,7 +77,7 @@ class WriterHist(Engine):
         "script = problem whose identifiers are adversarial (quantified conditions whose bound variables are named like objects or "
         "parameters of their own type; case variants of one another, PDDL keywords of the general / "
         "temporal / PDDL3 sets, names with symbols, blanks and leading digits, names equal to the mangled form of another "
-        "name; optionally the same name in two categories) + 6-20 calls on ONE PDDLWriter in seeded order (get_domain, "
+        "name; in 30% of the scripts free-form names of 3-40 characters most of which are not valid in PDDL, line breaks included; optionally the same name in two categories) + 6-20 calls on ONE PDDLWriter in seeded order (get_domain, "
         "get_problem, get_plan, write_domain / write_problem / write_plan to a file that may fail with ENOSPC/EIO at write k "
         "and is then retried, get_pddl_name, get_item_named). After every call: every item that has a name maps back to "
         "itself, every name ever handed out still maps to the same item and back to the same name, names are valid PDDL "
